@@ -162,9 +162,13 @@ PROPS = {
              "non-trivial = >= 2 labels with both voiced and unvoiced frames",
         theorem_clauses=["waveform length = fperiod x sum of durations", "one duration >= 1 per state (speed and alignment paths), F >= labels x states",
                          "MLPG shape on well-formed streams; the GV switch must cover every state (machine-checked counterexample otherwise)",
-                         "two-stream configuration never panics (repaired)", "one vocoder frame = fperiod samples", "END TO END totality: for every well-formed engine input (2 or 3 streams, speed or alignment) synthesis returns, every state lasts >= 1 frame, samples = frame_period x F"],
-        test_clauses=["all samples finite inside the stable range; otherwise a non-finite sample only after |x| > 1e150", "no panic on every generated case"],
-        assumptions=["well-formedness of the stream tables as the loader produces them"],
+                         "two-stream configuration never panics (repaired)", "one vocoder frame = fperiod samples", "END TO END totality: for every well-formed engine input (2 or 3 streams, speed or alignment) synthesis returns, every state lasts >= 1 frame, samples = frame_period x F",
+                         "FROM THE VOICES (Synth.VoicesWF): tree selection, interpolation, header defaults and any setter history inside the theorem — total, frame-exact, F >= labels x states, empty labels -> empty waveform",
+                         "FROM THE BYTES (bytes_to_waveform_total): reader accepted + computable supportedVoice/compatibleVoice checks + one weight per voice => C01 for every label sequence and history; the driver runs the checks on the files of every e2e case (class tag supported/UNSUPPORTED)",
+                         "machine-checked counterexample: more STREAM_WIN entries than NUM_WINDOWS loads and then panics in MlpgAdjust::create (replayed on the code: corpus/observations)"],
+        test_clauses=["all samples finite inside the stable range; otherwise a non-finite sample only after |x| > 1e150", "no panic on every generated case",
+                      "setter / loader histories that do not concern a setting leave it alone (neutral calls, reload, Condition::default route, clone) on every pipeline case"],
+        assumptions=["supported voice = passes the computable supportedVoice check (true of the bundled voice and of every generated voice, measured per run)"],
     ),
     "C11": dict(
         rule="bundled, PDF-perturbed and generated voices (different voicing-weight distributions); 2..6 labels; two thresholds t1 <= t2 for the log-F0 stream "
@@ -227,7 +231,9 @@ PROPS = {
              "class = (deepest walk in question nodes, first leaves reached); non-trivial = a walk through >= 2 question nodes",
         theorem_clauses=["glob = Matches ('*' any string, '?' any one character)", "question holds iff some pattern matches", "single-leaf tree selects its PDF",
                          "index form (convert_tree + search_node) = walk of the file's tree by node id; yes -> second child, no -> first",
-                         "from_linear layout: means | variances | voicing weight", "engine defaults = header values"],
+                         "from_linear layout: means | variances | voicing weight", "engine defaults = header values",
+                         "every Gaussian selection can hand to synthesis is one of the file's PDFs, entry id-1 of the tree whose declared state matches, with the announced layout",
+                         "an accepted, forward-referencing, non-empty tree ends in a PDF id for every label"],
         test_clauses=["the byte-level grammar of the reader vs the loader (same files parsed by both)", "jlabel-question's matcher agrees with wildcard matching on the label text",
                       "f32 -> f64 widening exact (bitwise comparison)"],
         assumptions=["labels are well-formed Open JTalk labels in canonical text form"],
@@ -240,7 +246,9 @@ PROPS = {
              "abort/hang), and parsed by the Lean reader. class = (fault kinds, loader outcome, drift flag); non-trivial = an actual fault was applied",
         theorem_clauses=["for every byte sequence the guarded reader returns a voice or an error (no panic outcome)", "the reader is total (structural/fuelled recursion)",
                          "pinned-commit panic sites witnessed on the unguarded model (inverted range, truncated file, unknown question, lone node child, overlong number)",
-                         "size bounds: an accepted voice has no more streams, questions, trees, tree rows, PDF words, windows or window coefficients than the file has bytes"],
+                         "size bounds: an accepted voice has no more streams, questions, trees, tree rows, PDF words, windows or window coefficients than the file has bytes",
+                         "what acceptance guarantees (accepted_voice_shape): stream count, PDF layouts per model (NUM_STATES / VECTOR_LENGTH x NUM_WINDOWS (+ voicing weight iff MSD) / VECTOR_LENGTH), GV model iff USE_GV, one PDF list per tree, every node / question reference resolves",
+                         "acceptance is not well-formedness: one accepted byte image (kernel-evaluated) with fewer windows than announced, an out-of-range leaf, a cyclic tree, an empty tree, a missing state"],
         test_clauses=["the real loader never panics / aborts / exceeds the time limit on any enumerated fault", "when both accept, the loaded metadata equals the file's",
                       "ok-vs-err disagreements between reader and loader are counted as drift (both satisfy C18)"],
         assumptions=["hang and unbounded allocation of the real binary are runtime observations under rlimit/timeout", "the header model is the line grammar of Appendix E, not serde's machinery"],
